@@ -3,6 +3,7 @@ from props import TB_COMMON
 _H = "From TeraV Require Import Model.Value Model.Registry Corr.CorrC11 Corr.CorrC10."
 
 CFG = {
+    "escalate": False,  # thorough generators take far longer than the second-pass budget (DESIGN 15.1)
     "bin": "c11",
     "corr": ["CorrC11", "CorrC10"],
     "harness_timeout": 2400,
